@@ -233,9 +233,10 @@ class LLMGenerationActionsV2dotx(LLMGenerationActions):
                 element_flow_state_instance = state.flow_id_states[flow_id]
                 if flow_config is not None and (
                     flow_config.has_meta_tag("user_intent")
-                    or (
-                        element_flow_state_instance
-                        and "_user_intent" in element_flow_state_instance[0].context
+                    or any(
+                        # (any instance: the oldest one is discarded after some idle time)
+                        "_user_intent" in flow_state_instance.context
+                        for flow_state_instance in element_flow_state_instance
                     )
                 ):
                     if flow_config.elements[1]["_type"] == "doc_string_stmt":
